@@ -788,6 +788,13 @@ func (g *G) genC05(p *Plan, listing bool) {
 			if state == "Suspended" && g.guards["suspended-writes"] {
 				op = Op{K: "get", B: b, Key: key()}
 				state = "Enabled"
+			} else if !listing && g.chance(0.15) {
+				// a configuration that does not name a status, then the state
+				// the run wanted anyway
+				ops = append(ops, Op{K: "setver", B: b, Status: g.pick("nostatus", "empty")})
+				if g.chance(0.5) {
+					ops = append(ops, Op{K: "put", B: b, Key: key(), Body: g.body(g.smallSize())}, Op{K: "del", B: b, Key: key()})
+				}
 			}
 		default:
 			op = Op{K: "lsversions", B: b}
